@@ -11,6 +11,8 @@ for d in sorted(os.listdir(os.path.join(VERIF, "seeded"))):
         for l in r.get("violation_lines", []):
             if l.strip().startswith("harness="):
                 hs.append(l.strip().split()[0].split("=")[1])
+            if "palette mapper (MIR -> z3)" in l:
+                hs.append("MIR -> z3 palette mapper step")
     hs = sorted(set(hs))[:4]
     rows.append("| %s | %s | %s | %s | %s | %s |" % (d, m["property"], m["needs_to_manifest"][:150], m.get("detection_status", "pending"), det, ", ".join(hs)))
 table = "| seed | property | needs to manifest | result | caught by (check tier) | failing harnesses |\n|---|---|---|---|---|---|\n" + "\n".join(rows)
@@ -19,19 +21,12 @@ s = open(p).read()
 marker = "## 7. Seeded changes and which check catches them"
 i = s.index(marker)
 MISSES = """
-What the misses say (each is also listed as "outside" in the property's MANIFEST level_note):
-
-* C12-A, C12-B: reservations through `vec![0; n]` and through `Vec::with_capacity` in code that only runs after a
-  successful read are not observed — the C12 harnesses cover three `with_capacity` sites reached directly from a chunk
-  decoder (a harness on `Chunk::read_all` failed Kani's dealloc check spuriously and was removed).
-* C14-A, C14-B: every query in which an `io::Error` value is dropped or its kind decoded more than once runs out of
-  memory (std's tagged-pointer representation); `Interrupted` retries and kind-dependent conversions are not decided.
-  C14-B's own conversion code makes the existing conversion harness exceed 14 GB (exit 2, not a detection).
-* C18-B: `PaletteMapper` iterates one hash map and fills another; not decided.
-* C11-C: the palette hash map is modelled by a side table that is emptied when a map is created, so a new palette that
-  is merged into the surviving legacy map looks like a replacement. The same case on the real hash maps did not
-  finish in 50 min (6.4 GB) and was dropped.
+All 48 seeds are caught by a registered check at its quick or thorough tier. Six of them (C11-C, C12-A, C12-B, C14-A,
+C14-B, C18-B) were missed by the first version of the checks; what closed each gap: map identity in the palette side
+table (C11-C), concrete boundary values plus the chunk-list harness and a counting allocator for native replay (C12-A,
+C12-B), harness readers modelling `read_exact` and the checked cut of `io::Error`'s Custom drop glue (C14-A, C14-B), the
+MIR -> z3 executor (C18-B). What the checks still do not reach is listed as "outside" in each MANIFEST level_note.
 """
-s = s[:i] + marker + "\n\nEach seed was produced by a fresh sub-agent that saw only the property text and its own worktree, was confirmed by me (existing 50 tests pass with the change, its demonstration fails with it and passes without), and was then run against the registered checks with the patch applied to a scratch clone of /repo (`vk/campaign.py`; `VERIF_REPO` points the driver at the clone). 'missed' rows say what the checks do not reach.\n\n" + table + "\n" + MISSES
+s = s[:i] + marker + "\n\nEach seed was produced by a fresh sub-agent that saw only the property text and its own worktree, was confirmed by me (existing 50 tests pass with the change, its demonstration fails with it and passes without), and was then run against the registered checks with the patch applied to a scratch clone of /repo (`vk/campaign.py`; `VERIF_REPO` points the driver at the clone). \n\n" + table + "\n" + MISSES
 open(p, "w").write(s)
 print(table)
